@@ -1,7 +1,25 @@
 #!/bin/bash
-# dev helper: tools_mut.sh <name> <ID> <tier> -- runs a check against a scratch worktree /tmp/mut/<name>
-# (create the worktree and edit it first: git -C /repo worktree add --detach /tmp/mut/<name>)
-name="$1"; id="$2"; tier="${3:-quick}"
-export VERIF_REPO=/tmp/mut/$name VERIF_OUT=/tmp/mut/$name-out
-mkdir -p "$VERIF_OUT"
-/verif/check "$id" "$tier"
+# dev helper: tools_mut.sh <name> '<shell command that edits the scratch worktree, run inside it>' <ID>...
+# Creates /tmp/mut/<name> from /repo HEAD, applies the edit, checks it still builds,
+# runs the given checks against it (quick unless MUT_TIER is set), prints DETECTED/MISSED, cleans up.
+set -uo pipefail
+export GOFLAGS=-mod=mod GOPROXY=off
+V="$(cd "$(dirname "$0")" && pwd)"
+name="$1"; edit="$2"; shift 2
+wt=/tmp/mut/$name; out=/tmp/mut/$name-out
+rm -rf "$wt" "$out"; git -C /repo worktree prune; mkdir -p /tmp/mut "$out"
+git -C /repo worktree add --detach "$wt" >/dev/null 2>&1 || { echo "ERROR worktree"; exit 2; }
+( cd "$wt" && eval "$edit" ) || { echo "$name ERROR edit failed"; git -C /repo worktree remove --force "$wt"; exit 2; }
+if [ -z "$(git -C "$wt" status --porcelain)" ]; then echo "$name ERROR edit changed nothing"; git -C /repo worktree remove --force "$wt"; exit 2; fi
+( cd "$wt" && go build ./... ) >/dev/null 2>&1 || { echo "$name ERROR mutant does not build"; git -C /repo worktree remove --force "$wt"; exit 2; }
+for id in "$@"; do
+  VERIF_REPO="$wt" VERIF_OUT="$out" "$V/check" "$id" "${MUT_TIER:-quick}" > "$out/$id.txt" 2>&1
+  rc=$?
+  case $rc in
+    1) echo "$name $id DETECTED: $(grep -m1 -A1 '^VIOLATION' "$out/$id.txt" | tail -1 | cut -c1-260)";;
+    0) echo "$name $id MISSED";;
+    *) echo "$name $id ERROR rc=$rc: $(tail -3 "$out/$id.txt" | cut -c1-300)";;
+  esac
+done
+git -C /repo worktree remove --force "$wt"
+rm -rf "$V/build/$(echo -n "$wt" | md5sum | cut -c1-8)" "$out"
